@@ -51,6 +51,9 @@ CLAIMS = {
  "C19": ("property-based testing: round trip, independent line grammar (differential) and per-setting reference; coverage-guided fuzzing of the parser in the thorough tier",
          "Generated settings maps must survive marshal/parse; generated assignments to all RdpSettings fields must print as CRLF-terminated name:(i|s):value lines without duplicates and read back equal through NewBuilderFromFile; templates rendered from such assignments must keep every non-default setting the gateway does not control and carry the gateway's values for the controlled ones (through web.Handler.HandleDownload); arbitrary byte strings are parsed differentially against the harness's own line grammar (error iff some line is malformed).",
          "4 C19"),
+ "C20": ("property-based fault injection with scripted fake KDCs (TCP+UDP transcripts) and an independent DER codec for KDC-PROXY-MESSAGE (rapid)",
+         "For generated krb5 configurations, KDC behaviours and requests the harness checks: a 200 body is DER KDC-PROXY-MESSAGE{kerb-message = the reply of a replying KDC of the requested realm} and that KDC received exactly the embedded message; nothing reaches KDCs of other realms; every request is answered within KDC timeout + margin (12 s); 405/411/413/400 for malformed requests with no KDC contacted. The handler is served by a real HTTP server in-process.",
+         "4 C20"),
 }
 
 TRUST = ("Trusted: the harness's own MS-TSGU codec, reference models and fake peers (written from the statement and MS-TSGU, independent of the repository); "
